@@ -1,6 +1,6 @@
 (* History machine: a pool of aggregators and the operations a program applies to it. *)
 From Coq Require Import ZArith List String Bool.
-From Hgm Require Import NumOps Agg Ops Snap Json Eq Np.
+From Hgm Require Import NumOps Agg Ops Snap Json Eq Np Views.
 Import ListNotations.
 Local Open Scope Z_scope.
 
@@ -25,6 +25,7 @@ Section Run.
   | OFillNp (i : nat) (rows : list (datum N * T))   (* h.fill.numpy(columns, weights) *)
   | OSnapP (i : nat)           (* snapshot up to empty sparse bins *)
   | OClone (i : nat)           (* push pickle.loads(pickle.dumps(pool[i])) *)
+  | OView (i : nat) (lo hi : option T) (xs : list T)   (* num_bins / bin_edges / bin_centers / bin_entries *)
   | OSnapAll.
 
   Definition dummy : agg := Leaf (LCount TId) no_quantity (leaf_zero (LCount TId)).
@@ -83,6 +84,7 @@ Section Run.
         (set p i a', [oc r])
     | OSnapP i => (p, snap (prune (get p i)))
     | OClone i => let c := get p i in (p ++ [c], 0 :: snap c)
+    | OView i lo hi xs => (p, tok_views (views_of (get p i) lo hi xs))
     | OSnapAll => (p, List.concat (map (fun a => 7777 :: snap a) p))
     end.
 
